@@ -73,6 +73,8 @@ pub struct Judge {
     /// a panic while the library builds a function source (linear, spline, +, -, integral, ...) is a
     /// violation (C16) rather than a discarded run (C03/C12, whose statements say nothing about it)
     pub build: bool,
+    /// also run the operation battery on every function's direct form (C16's monitored half)
+    pub battery: bool,
 }
 
 /// How a whole argument sequence is consumed from a fresh `evaluate_v` stream in one go
@@ -205,6 +207,25 @@ pub fn execute(scn: &CursorScn, judge: Judge, cov: &mut Cov, prog: &Progress) ->
                     class: "panic".into(),
                     detail: format!("building function {fi} ({}) panicked: {p}", spec.describe()),
                 };
+            }
+        }
+    }
+    if judge.battery {
+        for (fi, spec) in scn.funcs.iter().enumerate() {
+            prog.tick();
+            let x = spec.ends.first().copied().filter(|e| e.is_finite()).unwrap_or(1.0) + 0.5;
+            match crate::funcs::ops_battery(spec, x, 0.75) {
+                Ok(n) => cov.add("ops_battery_operations", n),
+                Err(p) => {
+                    return RunResult::Violation {
+                        class: "panic".into(),
+                        detail: format!(
+                            "operation battery on function {fi} ({} with {} finite well-formed segments; piece/segment/piecewise clone, ==, abs_diff_eq, relative_eq, translate, *, *=, -, +, derivative, indefinite, integral, integral_iter) panicked: {p}",
+                            spec.kind.name(),
+                            spec.ends.len()
+                        ),
+                    }
+                }
             }
         }
     }
@@ -1623,7 +1644,7 @@ impl World for C03 {
         }
     }
     fn explore(&self, base: &CursorScn, _tier: Tier, cov: &mut Cov, prog: &Progress) -> Outcome<CursorScn> {
-        let out = explore_plain(base, Judge { evals: true, streams: false, build: false }, cov, prog);
+        let out = explore_plain(base, Judge { evals: true, streams: false, build: false, battery: false }, cov, prog);
         if cov.enabled && out.violation.is_none() {
             if let Some(c) = small_scope_class(base) {
                 cov.aux.insert(c);
@@ -1646,7 +1667,7 @@ impl World for C03 {
         );
     }
     fn check(&self, scn: &CursorScn, cov: &mut Cov, prog: &Progress) -> Option<(String, String)> {
-        check_plain(scn, Judge { evals: true, streams: false, build: false }, cov, prog)
+        check_plain(scn, Judge { evals: true, streams: false, build: false, battery: false }, cov, prog)
     }
     fn rule(&self) -> String {
         format!("Each run: 1-3 seeded piecewise functions (29 piece types, 8 breakpoint patterns, library-produced sources), 1-4 PiecewiseEvaluator clients, 1-64 events (queries drawn from 17 seeded move kinds, evaluator restarts) scheduled by the PRNG; after every query the evaluator's answer is compared bit for bit with Piecewise::evaluate. {ORDER_RULE}")
@@ -1680,10 +1701,10 @@ impl World for C12 {
         gen_scenario(rng, Profile::Streams, tier)
     }
     fn explore(&self, base: &CursorScn, _tier: Tier, cov: &mut Cov, prog: &Progress) -> Outcome<CursorScn> {
-        explore_plain(base, Judge { evals: false, streams: true, build: false }, cov, prog)
+        explore_plain(base, Judge { evals: false, streams: true, build: false, battery: false }, cov, prog)
     }
     fn check(&self, scn: &CursorScn, cov: &mut Cov, prog: &Progress) -> Option<(String, String)> {
-        check_plain(scn, Judge { evals: false, streams: true, build: false }, cov, prog)
+        check_plain(scn, Judge { evals: false, streams: true, build: false, battery: false }, cov, prog)
     }
     fn rule(&self) -> String {
         format!("Each run: 1-3 seeded piecewise functions, 1-4 evaluate_v streams fed through a simulator-owned lazy iterator (bursts of feeds, then pulls, interleaved across streams by the PRNG, with cancel/restart); per pull: exactly one input consumed, result compared bit for bit with pointwise evaluation (non-decreasing prefix) or with the segment selected for the running maximum (after a decrease). {ORDER_RULE}")
@@ -1794,13 +1815,14 @@ impl World for C16 {
         gen_scenario(rng, Profile::Mixed, tier)
     }
     fn explore(&self, base: &CursorScn, tier: Tier, cov: &mut Cov, prog: &Progress) -> Outcome<CursorScn> {
-        let judge = Judge { evals: true, streams: false, build: true };
+        let judge = Judge { evals: true, streams: false, build: true, battery: false };
         size_classes(base, cov);
         let total = c16_total(base, tier);
         let mut dig = Digest::new();
         for sub in 0..total {
             prog.set_sub(sub);
             let scn = c16_variant(base, sub, tier);
+            let judge = Judge { battery: sub == 0, ..judge };
             match execute(&scn, judge, cov, prog) {
                 RunResult::Clean { digest } => {
                     dig.word(digest);
@@ -1830,10 +1852,10 @@ impl World for C16 {
         c16_variant(base, sub, tier)
     }
     fn check(&self, scn: &CursorScn, cov: &mut Cov, prog: &Progress) -> Option<(String, String)> {
-        check_plain(scn, Judge { evals: true, streams: false, build: true }, cov, prog)
+        check_plain(scn, Judge { evals: true, streams: false, build: true, battery: true }, cov, prog)
     }
     fn rule(&self) -> String {
-        format!("Each evaluation is one seeded fault-free base history (1-16 events over evaluators and evaluate_v streams, as in C03/C12) plus ALL its single-fault variants: a NaN query (4 bit patterns: NAN, -NAN, signalling pattern, payload; thorough adds +-inf) inserted at every position 0..=len on every client; thorough also enumerates all position pairs of (NaN, then NaN | restart | +inf | -inf) for bases of <= 8 events. Every library call runs under catch_unwind; every non-NaN evaluator answer in every variant must equal Piecewise::evaluate bit for bit. counters.faulted_executions is the number of faulted histories executed. {ORDER_RULE} (counted over the faulted histories, the NaN being one more rank)")
+        format!("Each evaluation is one seeded fault-free base history (1-16 events over evaluators and evaluate_v streams, as in C03/C12) plus ALL its single-fault variants: a NaN query (4 bit patterns: NAN, -NAN, signalling pattern, payload; thorough adds +-inf) inserted at every position 0..=len on every client; thorough also enumerates all position pairs of (NaN, then NaN | restart | +inf | -inf) for bases of <= 8 events. Every library call runs under catch_unwind; every non-NaN evaluator answer in every variant must equal Piecewise::evaluate bit for bit. counters.faulted_executions is the number of faulted histories executed. Once per base history an operation battery (piece-, segment- and piecewise-level clone, ==, abs_diff_eq, relative_eq, translate, *, *=, -, +, derivative, indefinite, integral, integral_iter(_ref) as they exist for the piece type) runs on every function under the crash monitor (counters.ops_battery_operations); counters.op_* count the library constructors and operators used as function sources. {ORDER_RULE} (counted over the faulted histories, the NaN being one more rank)")
     }
     fn assumptions(&self) -> Vec<String> {
         let mut a = common_assumptions();
